@@ -29,13 +29,14 @@ PROP_MODULES = ["ArmiVerif.Props.C16"]
 PARTIAL = ("in-place mutations of parameter values (`pokeP`) are modelled and tied (scopes, copies) but are not part of "
            "`Prog`: retain_restores speaks about assignments through setters (a kept parameter that was only mutated "
            "in place is restored, as in the code); parameters holding nested arrays are kept out of keep-sets (known finding); "
-           "definition-level flags: back-up chains proved balanced (defs_lifo) and non-kept flags proved restored "
-           "(def_assigned_restored); the value of a KEPT definition's flag after a scope is tied by correspondence only; "
+           "custom setters are modelled as arbitrary functions of (own values, new value) that may refuse or fan out to "
+           "sibling parameters of the SAME object (setC; observed row sent by the harness); setters reaching other objects "
+           "are not modelled; "
            "values are equality codes: what pickle/deepcopy do to a leaf value is a parameter of the model (checked "
-           "on the implementation: value canonical forms before/after); custom parameter setters and the API-level "
-           "mutators (setNumberDensity, setTemperature, ...) are covered by the implementation-side oracle, the model "
-           "has the default setter; material caches oracle-only; serial uniqueness is for create/deepcopy histories - "
-           "pickle and DB load preserve serials by design; MPI not covered")
+           "on the implementation: value canonical forms before/after); the API-level "
+           "mutators (setNumberDensity, setTemperature, ...) are covered by the implementation-side oracle; material "
+           "caches oracle-only; pickle and DB load preserve serials by design (uniqueness proved per tree, i.e. when the "
+           "original is discarded); MPI not covered")
 ASSUMPTIONS = [
     "pickle.loads(pickle.dumps(state)) and copy.deepcopy return values equal to the original leaf values "
     "(exercised: canonical value forms are compared before/after every scope and copy)",
@@ -309,7 +310,10 @@ def do_set(ses, t, only=None, custom=False):
     rng = ses.rng
     from armi.reactor.parameters import NoDefault
 
-    pds = [pd for pd in ses.pdefs(t) if pd.name not in ses.skipnames and (custom or default_setter(pd))]
+    use_custom = custom or rng.random() < 0.15
+    pds = [pd for pd in ses.pdefs(t) if pd.name not in ses.skipnames and (use_custom or default_setter(pd))]
+    if use_custom and not custom:
+        pds = [pd for pd in pds if not default_setter(pd)] or pds
     if not pds:
         return False
     kept = [pd for pd in pds if any(pd is q for ks in ses.keepstack for q in ks)]
@@ -330,14 +334,21 @@ def do_set(ses, t, only=None, custom=False):
         if v is None and cur is not None and rng.random() < 0.7:
             return False
     before = {p.name: canon(ses.val(t, p)) for p in ses.pdefs(t)}
+    flags_before = {id(q): q.assigned for q in ses.pdefs(t)}
     try:
         if rng.random() < 0.5:
             t.p[pd.name] = v
         else:
             setattr(t.p, pd.name, v)
     except Exception:
-        ses.skipnames.add(pd.name)
         after = {p.name: canon(ses.val(t, p)) for p in ses.pdefs(t)}
+        if after == before and not default_setter(pd) and not t.p.readOnly:
+            # a custom setter that refused: the flags are marked, the values are not touched
+            ses.log.append(f"set-refused {ses.ids[id(t)]} {pd.name}")
+            ses.emit(f"setrefuse {ses.ids[id(t)]} {ses.did(pd)}", "reject " + ses.obj_line(t) + f" d{pd.assigned}")
+            ses.ctx.count("custom setter refused")
+            return False
+        ses.skipnames.add(pd.name)
         if after != before:
             # a custom setter that changed something before refusing: outside the plain-assignment model
             ses.ctx.count("custom setter changed values before raising (session ended)")
@@ -345,6 +356,14 @@ def do_set(ses, t, only=None, custom=False):
         return False
     after = {p.name: canon(ses.val(t, p)) for p in ses.pdefs(t)}
     side = [k for k in after if k != pd.name and after[k] != before[k]]
+    if not default_setter(pd):
+        # a custom setter: whatever it did to this object's values is the observed function (transformation, fan-out)
+        ses.log.append(f"set {ses.ids[id(t)]} {pd.name}")
+        row = ",".join(str(ses.code(ses.val(t, q))) for q in ses.pdefs(t))
+        marked = ",".join(str(ses.did(q)) for q in ses.pdefs(t) if q is not pd and q.assigned != flags_before[id(q)])
+        ses.emit(f"setrow {ses.ids[id(t)]} {ses.did(pd)} [{row}] [{marked}]", "ok " + ses.obj_line(t) + f" d{pd.assigned}")
+        ses.ctx.count("custom setter assignment" + (" with side effects" if side else ""))
+        return True
     if side:
         # a custom setter with side effects: outside the plain-assignment model; undoable only by the scope
         ses.skipnames.add(pd.name)
@@ -542,7 +561,9 @@ def scope(ses, allobjs, depth, root=None, keep=None, script=None):
                 raise _Desync()
             raise
         ses.desync = True
-        ctx.fail(f"retain-scope-{phase[0]}-raises", "a retain-state scope can be opened and closed at any nesting depth",
+        nestedkept = [pd.name for o in objs for pd in keep if any(pd is q for q in o.p.paramDefs) and is_nested(ses.val(o, pd))]
+        ctx.fail("retain-kept-nested-array-raises" if (phase[0] == "exit" and nestedkept and isinstance(e, ValueError))
+                 else f"retain-scope-{phase[0]}-raises", "a retain-state scope can be opened and closed at any nesting depth",
                  ses.case() | {"object": ses.ids[id(root)], "type": type(root).__name__, "depth": depth, "keep": len(keep)},
                  observed=repr(e)[:200])
         raise _Desync()
@@ -584,7 +605,7 @@ def directed_nested_keep(ses, allobjs):
     for _ in range(20):
         t = rng.choice(allobjs)
         pds = [pd for pd in ses.pdefs(t) if pd.name not in ses.skipnames and default_setter(pd)
-               and isinstance(ses.val(t, pd), (int, float, str, type(None))) and ses.val(t, pd) is not NoDefault]
+               and pd.name not in ses.nested_names and isinstance(ses.val(t, pd), (int, float, str, type(None))) and ses.val(t, pd) is not NoDefault]
         if pds:
             break
     else:
